@@ -255,6 +255,12 @@ func (r *schemaLoader) deref(input interface{}, parentRefs []string, basePath st
 
 	if ref.String() == "" || ref.String() == curRef {
 		// done with rereferencing
+		if len(parentRefs) > 0 && ref.String() != "" {
+			// at the end of a chain of several $ref, the last one is relative to the document
+			// it was found in, which the caller doesn't know: leave it in its absolute form
+			*ref = *normalizedRef
+		}
+
 		return nil
 	}
 
